@@ -262,14 +262,14 @@ var certCtx *certInfo
 func inspCommand(in InspSpec) []string {
 	switch in.Kind {
 	case "log":
-		return []string{"sh", "-c", "echo " + in.Name + " >> " + logPath}
+		return []string{"sh", "-c", "echo '" + in.Name + "' >> " + logPath}
 	case "touch":
-		return []string{"sh", "-c", "echo " + in.Name + " >> " + logPath + "; echo x > " + in.Arg}
+		return []string{"sh", "-c", "echo '" + in.Name + "' >> " + logPath + "; echo x > " + in.Arg}
 	case "fail":
-		return []string{"sh", "-c", "echo " + in.Name + " >> " + logPath + "; exit " + in.Arg}
+		return []string{"sh", "-c", "echo '" + in.Name + "' >> " + logPath + "; exit " + in.Arg}
 	case "rewrite":
 		// same size, same mtime, other content
-		return []string{"sh", "-c", "echo " + in.Name + " >> " + logPath + "; printf BBBB > " + in.Arg + " && touch -d @1577836800 " + in.Arg}
+		return []string{"sh", "-c", "echo '" + in.Name + "' >> " + logPath + "; printf BBBB > " + in.Arg + " && touch -d @1577836800 " + in.Arg}
 	case "missing":
 		return []string{"/nonexistent/verif-no-such-binary", in.Name}
 	case "empty":
@@ -494,12 +494,14 @@ func baseScenario(r *lib.Rng, focus string, level int) *Scn {
 		sc.Entry = "dir"
 	}
 	n := r.Range(1, 3)
+	// step names: mostly plain, sometimes with dots, blanks, upper case or non-ASCII letters (all legal; no glob characters)
+	nameFmt := []string{"s%d_%d", "s%d_%d", "s%d_%d", "build.v%d.%d", "\u00e9tape-%d-%d", "STEP%d%d", "a b %d %d", "x%d.tar.gz.%d"}[r.Intn(8)]
 	ops := []string{"create", "modify", "delete", "create"}
 	for i := 0; i < n; i++ {
 		keys := pickSubset(r, pool, 1, 3)
 		t := r.Range(1, len(keys))
 		signers := pickSubset(r, keys, t, len(keys))
-		sc.Steps = append(sc.Steps, StepSpec{Name: fmt.Sprintf("s%d_%d", level, i), Keys: keys, Threshold: t, Signers: signers, Op: ops[r.Intn(len(ops))]})
+		sc.Steps = append(sc.Steps, StepSpec{Name: fmt.Sprintf(nameFmt, level, i), Keys: keys, Threshold: t, Signers: signers, Op: ops[r.Intn(len(ops))]})
 	}
 	// at most one "delete"/"modify" of the same file matters not; keep simple
 	seen := map[string]bool{}
@@ -1612,7 +1614,13 @@ func readLog() []string {
 	if err != nil {
 		return nil
 	}
-	return strings.Fields(string(b))
+	var out []string
+	for _, l := range strings.Split(string(b), "\n") { // one name per line (names may contain blanks)
+		if l != "" {
+			out = append(out, l)
+		}
+	}
+	return out
 }
 
 func runImpl(sc *Scn, w *world) obs { return runImplOn(sc, w, nil) }
